@@ -234,6 +234,20 @@ KERNELS = [
     ('FaultCondVar_wait_for', None, ['yaclib_std/condition_variable'], 'yaclib::detail::ConditionVariable', 'fault/detail/condition_variable.hpp', 'wait_for', 'template'),
     ('FaultCondVar_notify_one', None, ['yaclib_std/condition_variable'], 'yaclib::detail::ConditionVariable', 'fault/detail/condition_variable.hpp', 'notify_one', 0),
     ('FaultCondVar_notify_all', None, ['yaclib_std/condition_variable'], 'yaclib::detail::ConditionVariable', 'fault/detail/condition_variable.hpp', 'notify_all', 0),
+    ('FaultMutex_GetImpl', None, ['yaclib_std/mutex'], 'yaclib::detail::Mutex', 'fault/detail/mutex.hpp', 'GetImpl', 0),
+    ('FaultSharedTimedMutex_try_lock_until', None, ['yaclib_std/shared_mutex'], 'yaclib::detail::SharedTimedMutex', 'fault/detail/shared_timed_mutex.hpp', 'try_lock_until', 'template'),
+    ('FaultSharedTimedMutex_try_lock_shared_until', None, ['yaclib_std/shared_mutex'], 'yaclib::detail::SharedTimedMutex', 'fault/detail/shared_timed_mutex.hpp', 'try_lock_shared_until', 'template'),
+    ('FaultCondVar_wait_pred', None, ['yaclib_std/condition_variable'], 'yaclib::detail::ConditionVariable', 'fault/detail/condition_variable.hpp', 'wait', 'template'),
+    ('FaultCondVar_wait_until', None, ['yaclib_std/condition_variable'], 'yaclib::detail::ConditionVariable', 'fault/detail/condition_variable.hpp', 'wait_until', 'template'),
+    ('FaultCondVar_From_lock', None, ['yaclib_std/condition_variable'], 'yaclib::detail::ConditionVariable', 'fault/detail/condition_variable.hpp', 'From', 0),
+    ('FaultCondVar_From_pair', None, ['yaclib_std/condition_variable'], 'yaclib::detail::ConditionVariable', 'fault/detail/condition_variable.hpp', 'From', 1),
+    ('FaultCondVar_CVStatusFrom_wait', None, ['yaclib_std/condition_variable'], 'yaclib::detail::CVStatusFrom', 'fault/detail/condition_variable.hpp', 'CVStatusFrom', 0),
+    ('FaultCondVar_CVStatusFrom_cv', None, ['yaclib_std/condition_variable'], 'yaclib::detail::CVStatusFrom', 'fault/detail/condition_variable.hpp', 'CVStatusFrom', 1),
+    ('FaultCondVarAny_notify_one', None, ['condition_variable', 'yaclib/fault/detail/condition_variable_any.hpp'], 'yaclib::detail::ConditionVariableAny', 'fault/detail/condition_variable_any.hpp', 'notify_one', 0),
+    ('FaultCondVarAny_notify_all', None, ['condition_variable', 'yaclib/fault/detail/condition_variable_any.hpp'], 'yaclib::detail::ConditionVariableAny', 'fault/detail/condition_variable_any.hpp', 'notify_all', 0),
+    ('FaultCondVarAny_wait', None, ['condition_variable', 'yaclib/fault/detail/condition_variable_any.hpp'], 'yaclib::detail::ConditionVariableAny', 'fault/detail/condition_variable_any.hpp', 'wait', 'template'),
+    ('FaultCondVarAny_wait_for', None, ['condition_variable', 'yaclib/fault/detail/condition_variable_any.hpp'], 'yaclib::detail::ConditionVariableAny', 'fault/detail/condition_variable_any.hpp', 'wait_for', 'template'),
+    ('FaultCondVarAny_wait_until', None, ['condition_variable', 'yaclib/fault/detail/condition_variable_any.hpp'], 'yaclib::detail::ConditionVariableAny', 'fault/detail/condition_variable_any.hpp', 'wait_until', 'template'),
     # ---- fiber scheduler / fault injector decision code (C17); the pure parts are also translated by x_fibersched.py
     ('Sched_RunLoop', 'src/fault/fiber/scheduler.cpp', None, 'yaclib::fault::Scheduler', 'fiber/scheduler.cpp', 'RunLoop', 0),
     ('Sched_Schedule', 'src/fault/fiber/scheduler.cpp', None, 'yaclib::fault::Scheduler', 'fiber/scheduler.cpp', 'Schedule', 0),
